@@ -288,7 +288,11 @@ public:
     template<typename T>
     future<T> run(async<T> &fn) {
         return [&](auto promise) {
-            resume(fn.start(promise));
+            //the closure owns the coroutine and the promise: when the pool is stopped before
+            //the closure could run, the coroutine is destroyed and the promise is broken
+            run_detached([fn = std::move(fn), promise = std::move(promise)]() mutable {
+                fn.start(promise);
+            });
         };
     }
 
